@@ -80,11 +80,15 @@ def run(tier):
         # 3. code -> spec: concurrent rounds on the real TxManager, linearized by TLC
         lin_traces = 0
         lin_cfg = dict(traces=300 if quick else 3000, rounds=8 if quick else 10, par=3 if quick else 4)
-        for k, (nn, nt) in enumerate([(3, 2), (2, 1), (4, 3)] if not quick else [(3, 2), (2, 1)]):
+        lin_plans = [(3, 2, []), (2, 1, []), (3, 3, ["-retry", "-par", "1", "-rounds", "15"]),
+                     (3, 4, ["-retry", "-par", "2", "-rounds", "20"])]
+        if not quick:
+            lin_plans.append((4, 3, []))
+        for k, (nn, nt, extra) in enumerate(lin_plans):
             tp = os.path.join(scratch, "lin_%d.ndjson" % k)
             rc, o, err = run_harness(binary, ["txmc", "-seed", str(sd * 10 + k), "-traces", str(lin_cfg["traces"]),
                                               "-rounds", str(lin_cfg["rounds"]), "-par", str(lin_cfg["par"]),
-                                              "-nodes", str(nn), "-txs", str(nt), "-out", tp], timeout=3000)
+                                              "-nodes", str(nn), "-txs", str(nt), "-out", tp] + extra, timeout=3000)
             if rc != 0:
                 raise Infra("txmc harness failed: " + err[-2000:])
             trace = open(tp).read()
